@@ -1,0 +1,75 @@
+//go:build verif
+
+// Package verifhook holds scheduling and fault-injection seams used by the
+// deterministic simulator under /verif. With the "verif" build tag off every
+// function in this package is an empty inlinable stub.
+package verifhook
+
+// Enabled reports whether the hooks are compiled in.
+const Enabled = true
+
+// Function variables installed by the simulator. They must be set before any
+// goroutine that calls the wrappers is started.
+var (
+	YieldFn    func(site string)
+	SpawnFn    func(kind string) uint64
+	StartFn    func(tok uint64)
+	ExitFn     func(tok uint64)
+	NoteFn     func(site, detail string)
+	FaultFn    func(site, detail string) error
+	MapOrderFn func(site string, n int) []int
+)
+
+// Yield marks a scheduling point.
+func Yield(site string) {
+	if f := YieldFn; f != nil {
+		f(site)
+	}
+}
+
+// Spawn announces that the caller is about to start a goroutine of the given
+// kind and returns a token the new goroutine hands to Start and Exit.
+func Spawn(kind string) uint64 {
+	if f := SpawnFn; f != nil {
+		return f(kind)
+	}
+	return 0
+}
+
+// Start binds the calling goroutine to the announced task.
+func Start(tok uint64) {
+	if f := StartFn; f != nil {
+		f(tok)
+	}
+}
+
+// Exit marks the end of the announced task.
+func Exit(tok uint64) {
+	if f := ExitFn; f != nil {
+		f(tok)
+	}
+}
+
+// Note reports an observation (e.g. a path about to be read).
+func Note(site, detail string) {
+	if f := NoteFn; f != nil {
+		f(site, detail)
+	}
+}
+
+// Fault lets the simulator fail an operation at this site.
+func Fault(site, detail string) error {
+	if f := FaultFn; f != nil {
+		return f(site, detail)
+	}
+	return nil
+}
+
+// MapOrder returns a permutation of 0..n-1 chosen by the simulator for the
+// given site, or nil for the identity.
+func MapOrder(site string, n int) []int {
+	if f := MapOrderFn; f != nil {
+		return f(site, n)
+	}
+	return nil
+}
